@@ -51,6 +51,9 @@ def grammar_cases():
     for t in ('1:2:3:4:5:6:7:8', '1:2:3:4:5:6:7::', '::2:3:4:5:6:7:8', '1::3:4:5:6:7:8', '1:2:3:4::6:7:8', '1:2:3:4:5:6::8', '::', '::1', '1::', 'a:b::c:d', '2001:db8::',
               '0:0:0:0:0:0:0:0', 'ffff:ffff:ffff:ffff:ffff:ffff:ffff:ffff', '1:2:3:4:5:6:7:0', '0:2:3:4:5:6:7:8'):
         cases.append((t, (128, ipaddress.IPv6Address(t).packed)))
+        if '.' not in t:
+            for n in (0, 1, 16, 64, 112, 127, 128):     # ... and the same spellings with a prefix length: x:y::/n in every position of the "::"
+                cases.append(('%s/%d' % (t, n), (n, ipaddress.IPv6Address(t).packed)))
     for t in ('1.2.3.4', '255.255.255.255', '0.0.0.1'):
         cases.append((t, (128, ipaddress.IPv6Address('::ffff:' + t).packed)))
     for t in ('::ffff:1.2.3.4', '1:2:3:4:5:6:1.2.3.4', '::1:2:3:4:5:1.2.3.4', '64:ff9b::192.0.2.33'):
